@@ -446,22 +446,25 @@ Deliver(S, shape, ord, vals, mode, d, u, et, mayRefuse) ==
                         Res("ok", mayRefuse \/ D.view \/ D.pend # NoPend, d, <<>>, <<>>))
 
 (* binary arithmetic f in operand order.  form "TT": tensor h, tensor b; "TS": tensor h, scalar K(b);
-   "ST": scalar K(b), tensor h *)
+   "ST": scalar K(b), tensor h; "TZ" / "ZT": the scalar is the rank-0 tensor b *)
 BinVals(S, h, f, form, b, head) ==
     LET t == S.live[h]
         A(k) == S.heap[t.cells[k]]
     IN [k \in 1..Len(t.cells) |->
           CASE form = "TT" -> <<head, f, A(k), S.heap[S.live[b].cells[k]]>>
             [] form = "TS" -> <<head, f, A(k), K(b)>>
-            [] form = "ST" -> <<head, f, K(b), A(k)>>]
+            [] form = "ST" -> <<head, f, K(b), A(k)>>
+            (* "TZ" / "ZT": the scalar is handed over as a rank-0 TENSOR b (which must come out of the call unchanged) *)
+            [] form = "TZ" -> <<head, f, A(k), S.heap[S.live[b].cells[1]]>>
+            [] form = "ZT" -> <<head, f, S.heap[S.live[b].cells[1]], A(k)>>]
 
 ArithT(S, h, f, form, b, mode, d) ==
     LET t == S.live[h]
     IN IF form = "TT" /\ S.live[b].shape # t.shape THEN Err(S)
        ELSE LET o == Deliver(S, t.shape, t.ord, BinVals(S, h, f, form, b, "bin"), mode, d, h,
                              IF f \in {"min", "max"} THEN "same" ELSE "",     \* min/max allocate a new result, no clone
-                             (* an aliasing reuse may be refused *)
-                             mode = "reuse" /\ (d = h \/ (form = "TT" /\ d = b)))
+                             (* an aliasing reuse may be refused; so may a scalar handed over as a tensor *)
+                             form \in {"TZ", "ZT"} \/ (mode = "reuse" /\ (d = h \/ (form = "TT" /\ d = b))))
             IN IF mode = "safe" THEN WithResultMask(o, OperandMask(S, t, IF form = "TT" THEN S.live[b] ELSE t)) ELSE o
 
 (* comparisons: result kind "bool" (default), "same" (1/0 of the operand type); unsafe is in place and
@@ -473,7 +476,7 @@ CmpT(S, h, f, form, b, mode, d, same) ==
         vals == IF asSame THEN [k \in 1..Len(cv) |-> <<"b", cv[k]>>] ELSE cv
     IN IF form = "TT" /\ S.live[b].shape # t.shape THEN Err(S)
        ELSE Deliver(S, t.shape, t.ord, vals, mode, d, h, IF asSame THEN "" ELSE "bool",
-                    mode = "reuse" /\ (d = h \/ (form = "TT" /\ d = b)))
+                    form \in {"TZ", "ZT"} \/ (mode = "reuse" /\ (d = h \/ (form = "TT" /\ d = b))))
 
 (* unary functions; "clamp" takes the two constants K(lo), K(hi) *)
 UnaryT(S, h, f, mode, d, lo, hi) ==
@@ -481,7 +484,8 @@ UnaryT(S, h, f, mode, d, lo, hi) ==
         vals == [k \in 1..Len(t.cells) |->
                    IF f = "clamp" THEN <<"clamp", S.heap[t.cells[k]], K(lo), K(hi)>>
                    ELSE <<"un", f, S.heap[t.cells[k]]>>]
-    IN Deliver(S, t.shape, t.ord, vals, mode, d, h, "", mode = "reuse" /\ d = h)
+        o == Deliver(S, t.shape, t.ord, vals, mode, d, h, "", mode = "reuse" /\ d = h)
+    IN IF mode = "safe" THEN WithResultMask(o, OperandMask(S, t, t)) ELSE o
 
 (* fused multiply-add: Y := A * X + Y (X a tensor or the scalar K(x)); returns Y *)
 FMAT(S, a, form, x, y) ==
@@ -495,9 +499,11 @@ FMAT(S, a, form, x, y) ==
 (***************************************************************************)
 (* Masked tensors                                                          *)
 (***************************************************************************)
-NewMaskedT(S, shape, bits) ==
-    LET o == NewT(S, shape, "C", "")
+(* the caller's mask slice is parallel to the caller's backing: bits[i] belongs to storage position i *)
+NewMaskedOrdT(S, shape, bits, ctor) ==
+    LET o == NewT(S, shape, ctor, "")
     IN Out(SetMaskAll(o.S, Len(o.S.allocs), [i \in 1..Len(bits) |-> IF bits[i] = 1 THEN MT ELSE MF]), o.res)
+NewMaskedT(S, shape, bits) == NewMaskedOrdT(S, shape, bits, "C")
 
 (* predicates: "eq","ne","gt","ge","lt","le" against K(x); "inside" (x <= a <= y), "outside" against K(x), K(y) *)
 PredTerm(pred, v, x, y) ==
@@ -803,6 +809,7 @@ Apply(S, op) ==
       [] op.k = "Cmp"         -> CmpT(S, op.h, op.a[1], op.a[2], op.a[3], op.a[4], op.a[5], op.a[6] = 1)
       [] op.k = "Unary"       -> UnaryT(S, op.h, op.a[1], op.a[2], op.a[3], op.a[4], op.a[5])
       [] op.k = "NewMasked"   -> NewMaskedT(S, op.a[1], op.a[2])
+      [] op.k = "NewMaskedF"  -> NewMaskedOrdT(S, op.a[1], op.a[2], "F")
       [] op.k = "MaskPred"    -> MaskPredT(S, op.h, op.a[1], op.a[2], op.a[3])
       [] op.k = "Soften"      -> SoftenT(S, op.h, op.a[1] = 1)
       [] op.k = "ResetMask"   -> ResetMaskT(S, op.h)
